@@ -232,7 +232,7 @@ def worker_env(extra=None):
     return env
 
 
-def run_worker(exe, runs, valgrind=False, env=None):
+def run_worker(exe, runs, valgrind=False, env=None, timeout=None):
     """executes runs in one worker process, restarting after a death.  returns (events, stats)
     events: list of dict(run, op, kind='V'|'crash'|'terminate', cls, detail, fault)"""
     events = []
@@ -245,7 +245,7 @@ def run_worker(exe, runs, valgrind=False, env=None):
         cmd = [exe]
         if valgrind:
             cmd = ["valgrind", "-q", "--error-exitcode=79", "--track-origins=no", "--exit-on-first-error=yes", exe]
-        rc, out, err = run(cmd, stdin=text.encode(), timeout=WORKER_TIMEOUT, env=worker_env(env))
+        rc, out, err = run(cmd, stdin=text.encode(), timeout=timeout or WORKER_TIMEOUT, env=worker_env(env))
         out = out.decode(errors="replace")
         err = err.decode(errors="replace")
         inflight = None
@@ -298,7 +298,8 @@ def run_worker(exe, runs, valgrind=False, env=None):
             # a worker that exceeds the time limit proves nothing about the property (a slow harness step looks the same
             # as a non-terminating library call): infrastructure, never a violation
             events.append({"run": -1, "op": -1, "kind": "infra", "cls": "worker-timeout", "fault": "-",
-                           "detail": "worker exceeded %d s while executing %s (run %d op %d)" % (WORKER_TIMEOUT, name, rid, oi)})
+                           "detail": "worker exceeded %d s while executing %s (run %d op %d); the rest of its shard is not run" % (timeout or WORKER_TIMEOUT, name, rid, oi)})
+            break   # on a tree that corrupts memory in a build that cannot see it, every later op may hang as well
         else:
             cls, tail = classify_death(rc, err)
             events.append({"run": rid, "op": oi, "kind": "crash", "cls": cls, "fault": "-", "detail": tail[-1500:]})
@@ -330,11 +331,11 @@ def run_fresh(exe, runs, jobs=None):
     return events, stats, results
 
 
-def run_parallel(exe, runs, jobs=None, valgrind=False, env=None):
+def run_parallel(exe, runs, jobs=None, valgrind=False, env=None, timeout=None):
     jobs = jobs or common.NCPU
     shards = [runs[i::jobs] for i in range(jobs)]
     shards = [s for s in shards if s]
-    outs = pmap(lambda s: run_worker(exe, s, valgrind, env), shards, jobs)
+    outs = pmap(lambda s: run_worker(exe, s, valgrind, env, timeout), shards, jobs)
     events, stats, results = [], {}, {}
     for ev, st, rs in outs:
         events += ev
@@ -624,8 +625,16 @@ def vkey(ev, ops_of_run):
     return (cls, family(name))
 
 
+REPRO_TIMEOUTS = [0]      # reproduction attempts that ran into the time limit (a hang proves nothing and costs minutes)
+
+
 def reproduces(exe, plan_ops, want_cls, want_name, valgrind=False, env=None):
-    ev, st, rs = run_worker(exe, [(0, plan_ops)], valgrind, env)
+    if REPRO_TIMEOUTS[0] >= 3:
+        return None
+    tmo = None if any(o.get("fault") == "huge" for o in plan_ops) else 300
+    ev, st, rs = run_worker(exe, [(0, plan_ops)], valgrind, env, tmo)
+    if any(e["cls"] == "worker-timeout" for e in ev):
+        REPRO_TIMEOUTS[0] += 1
     for e in ev:
         if e["cls"] == want_cls and 0 <= e["op"] < len(plan_ops) and plan_ops[e["op"]].get("name") == want_name:
             return e
@@ -831,7 +840,9 @@ def main(tier, seed):
     def execute(label, exe, runs, valgrind=False, build="san", fresh=False, env=None, precomputed=None):
         nonlocal evaluations
         t = time.time()
-        ev, st, rs = precomputed if precomputed is not None else (run_fresh(exe, runs) if fresh else run_parallel(exe, runs, valgrind=valgrind, env=env))
+        # builds that cannot see memory corruption (thread sanitizer, optimised) get a shorter leash: their batches take seconds
+        tmo = 300 if build in ("tsan", "opt") else None
+        ev, st, rs = precomputed if precomputed is not None else (run_fresh(exe, runs) if fresh else run_parallel(exe, runs, valgrind=valgrind, env=env, timeout=tmo))
         if env is not None:
             for e in ev:
                 e["env"] = env
@@ -1022,6 +1033,10 @@ def main(tier, seed):
             continue
         nviol += len(unknown)
         log("violation class %s: %d op families affected (e.g. %s)" % (cls, len(unknown), ", ".join(f for f, _ in unknown[:4])))
+        if len(reported) >= 6:
+            # a tree that corrupts memory in builds that cannot see it produces dozens of secondary classes: six minimised,
+            # gated replays are enough to act on, the rest are listed above and counted
+            continue
         for fam, items in unknown[:2]:      # minimise and report up to two families per class
             b, ops_, e = min(items, key=lambda it: it[2]["op"])
             valgrind = b == "plain-memcheck"
